@@ -105,10 +105,10 @@ CLAIMED['C17'] = {
     'text': 'MerchantEngine._add_rule proved for all key-presence combinations (exactly one rule with exactly the stated properties appended in file order, or MerchantParseError '
             'for a missing match, neither category nor tags, or an invalid let/field/match expression); parse_sections (views files) proved by a loop invariant over the lines '
             'with uninterpreted line classifiers: one view per [header] in file order with its own name and line number, recorded only with a non-empty filter, property lines classified on their '
-            'stripped text, every rejection a SectionParseError naming the offending line; information-flow and close-site clauses for MerchantEngine.parse() decided syntactically (auxiliary). '
+            'stripped text, every rejection a SectionParseError naming the offending line; MerchantEngine.parse (rules files) by a loop invariant as well: _add_rule is called exactly once per [header], in file order, with the header line number, the last open rule is closed at end of file, every rejection is a MerchantParseError naming the line being read or the header of the rejected rule (the content collected for a rule is abstract there: _add_rule contract + oracle). '
             'Whole-file layout / corruption / reporting sentences are exercised by the labelled bounded oracle. One recorded known finding (unloadable file read as empty).',
-    'level_note': _BASE_NOTE + ' The per-line regex classifiers are opaque (A6); the line loop of MerchantEngine.parse() (its state is a dict with dynamic keys) is covered by syntactic clauses and the bounded oracle, not by a loop invariant.',
-    'technique': 'contract-based deductive verification (_add_rule and the parse_sections line loop by symbolic execution + z3; syntactic information-flow clauses for parse()) + bounded metamorphic/corruption oracle',
+    'level_note': _BASE_NOTE + ' The per-line regex classifiers are opaque (A6); in the line loop of MerchantEngine.parse() the rule being collected (a dict with a growing key set) is an opaque object: which properties reach _add_rule is covered by syntactic clauses and the bounded oracle.',
+    'technique': 'contract-based deductive verification (_add_rule and the line loops of parse_sections and parse by symbolic execution with loop invariants over ghost folds + z3; syntactic information-flow clauses) + bounded metamorphic/corruption oracle',
 }
 
 CLAIMED['C10'] = {
